@@ -297,7 +297,7 @@ func ruleTableBeforeWalRemove(r *Report) {
 	for _, s := range removalSites(r.P, fn) {
 		for _, a := range argsOf(s.Call()) {
 			if f, ok := a.(*ssa.Field); ok {
-				if st, _ := f.X.Type().Underlying().(*types.Struct); st != nil && st.Field(f.Field).Name() == "walPath" {
+				if st, _ := f.X.Type().Underlying().(*types.Struct); st != nil && refField(f.X.Type(), f.Field) == "walPath" {
 					B = append(B, s)
 				}
 			} else if _, fld, _, ok := loadOfField(a); ok && fld == "walPath" {
@@ -1222,7 +1222,7 @@ func guardedOffRecovery(p *Prog, fn *ssa.Function, s Site) bool {
 	isWalPath := func(v ssa.Value) bool {
 		if f, ok := v.(*ssa.Field); ok {
 			st, _ := f.X.Type().Underlying().(*types.Struct)
-			return st != nil && st.Field(f.Field).Name() == "walPath"
+			return st != nil && refField(f.X.Type(), f.Field) == "walPath"
 		}
 		_, fld, _, ok := loadOfField(v)
 		return ok && fld == "walPath"
@@ -1286,7 +1286,7 @@ func guardedOffRecovery(p *Prog, fn *ssa.Function, s Site) bool {
 						}
 						sets := false
 						for _, rf := range *al.Referrers() {
-							if fa, isF := rf.(*ssa.FieldAddr); isF && st.Field(fa.Field).Name() == "walPath" {
+							if fa, isF := rf.(*ssa.FieldAddr); isF && refField(fa.X.Type(), fa.Field) == "walPath" {
 								for _, rr := range *fa.Referrers() {
 									if _, isS := rr.(*ssa.Store); isS {
 										sets = true
